@@ -136,10 +136,10 @@ CHECKS = {
  "C19": dict(
    engine="mc-core", category="fault_enumeration", design_ref="DESIGN.md 3/C19",
    technique="exhaustive enumeration of ill-posed input classes x devices x defect magnitudes x output destinations x validator seeds, with a file-system / handle audit after each rejection and a positive control per class",
-   text=("Every variant of the classes (unbalanced constant and callable currents, unknown terminal, epsilon > 1 in 4 forms, each SolverOptions rule, empty terminals, foreign seed solutions in 5 forms, vector potentials of wrong shape, invalid polygons, "
+   text=("Every variant of the classes (unbalanced constant and callable currents, unknown terminal, epsilon > 1 in 4 forms, NaN currents, an imbalance that only the thermalisation window reaches, each SolverOptions rule incl. dt_init <= 0 / NaN and a save_every that is not a positive integer (per-case time limit: the broken behaviour is an endless run), empty terminals incl. one that holds a single boundary vertex, foreign seed solutions in 5 forms and seeds on another mesh of an equal device, vector potentials of wrong shape, invalid polygons, "
          "invalid device definitions) is instantiated on each device, at defect magnitudes 1, 1e-3 and 1e-6 where a magnitude exists, with and without an explicit (nested) output path and for each seed of the current validator's random times; "
          "an exception must be raised and the recursive snapshot of the sandbox and of the private temp directory must be unchanged with no HDF5 handle open. Repaired inputs (controls, incl. rounding-level imbalance 0.1+0.2-0.3) must be accepted."),
-   note="numpy.random.default_rng() is seeded by the harness inside the worker; imbalances confined to windows narrower than T/20 are outside the classes; options not constrained by validate() (save_every=0, dt_init<0) are informational only"),
+   note="numpy.random.default_rng() is seeded by the harness inside the worker; imbalances confined to windows narrower than T/20 are outside the classes; negative solve / skip times are accepted (a one-frame run) and are informational only; a time-dependent epsilon is checked at t = 0 only"),
  "C09": dict(
    engine="mc-core", category="model_checking", design_ref="DESIGN.md 3/C09, 2.2 (E5)",
    technique="stateless exploration of all thread interleavings (preemption-bounded, CHESS style) of every prange kernel body on its Python source under a controlled scheduler, with a pairwise independence (conflict-freedom) check of loop iterations; plus an exhaustive process / thread-count sweep of whole runs compared by digest, plus exhaustive depth-bounded enumeration of operation histories inside one process (fresh process per history) with a differential digest oracle",
